@@ -515,8 +515,13 @@ def parse_class(header_clean, cls, real='double'):
             mi.params_text = t[par + 1:pc]
             mi.inline_body = None
             bi = suffix.find('{')
+            mi.init_list = ''
             if bi >= 0:
                 mi.inline_body = suffix[bi:suffix.rfind('}') + 1]
+                # an inline constructor's member-initialiser list sits between ')' and the body (brace-init is not used in this code base)
+                il = suffix[:bi].strip()
+                if il.startswith(':'):
+                    mi.init_list = il[1:].strip()
             mi.deleted = '= delete' in suffix or '=delete' in suffix
             mi.template_T = item_template_T
             try:
@@ -1035,7 +1040,17 @@ class Translator:
                 else:
                     out_args.append(a)
             keepnl = '\n' * body[m.start():pc + 1].count('\n')
-            body = body[:m.start()] + '%s(%s)%s' % (fi.cname, ', '.join(out_args), keepnl) + body[pc + 1:]
+            callee_name = fi.cname
+            if getattr(fi, 'replaced', False):
+                # per-call-site vacuity canary: the call goes through a generated wrapper `f__sN` that asserts, after the call returns,
+                # an assertion that must FAIL (be reachable) -- a contradictory assumed contract would otherwise cut the path silently
+                if not hasattr(self, 'call_sites'):
+                    self.call_sites = []
+                k = len(self.call_sites)
+                callee_name = '%s__at_%s_%d' % (fi.cname, getattr(self, 'site_prefix', 'f'), k)
+                self.call_sites.append((k, fi, body.count('\n', 0, m.start())))
+                self.report.hit('R6.call_site_canary')
+            body = body[:m.start()] + '%s(%s)%s' % (callee_name, ', '.join(out_args), keepnl) + body[pc + 1:]
             self.report.hit('R6.call')
         return body
 
@@ -1059,7 +1074,7 @@ class Translator:
                     throwers.add(fi.cname)
         if not throwers:
             return body
-        pat = re.compile(r'(?<![\w.>])(' + '|'.join(sorted(map(re.escape, throwers), key=len, reverse=True)) + r')\s*\(')
+        pat = re.compile(r'(?<![\w.>])(' + '|'.join(sorted(map(re.escape, throwers), key=len, reverse=True)) + r')(?:__at_\w+)?\s*\(')
         # a may-throw call inside the condition of an `if`: hoist the condition into a temporary so that the
         # propagation test can follow it (only when the `if` starts a statement)
         nh = 0
